@@ -154,8 +154,9 @@ def replay(case: Dict[str, Any]) -> List[Dict[str, Any]]:
 def cases(draw: Any) -> Dict[str, Any]:
     version = draw(st.sampled_from([b'HTTP/1.1', b'HTTP/1.1', b'HTTP/1.0']))
     framings = ('none', 'cl', 'chunked') if version == b'HTTP/1.1' else ('none', 'cl')
+    # chunk extensions and trailers are valid in requests too (the decoded body is what must survive)
     req = draw(G.request_spec(form='absolute', framings=framings, versions=(version,), max_body=400, max_headers=8,
-                              plain_chunked=True))
+                              plain_chunked=draw(st.integers(0, 2)) != 0))
     # target variants
     tv = draw(st.integers(0, 9))
     if tv == 0:
